@@ -11,5 +11,5 @@ H=$(python3 -c "import hashlib,os,sys;print(hashlib.sha1(os.path.realpath(sys.ar
 VERIF_REPO="$WT" ./check "$PROP" --tier "$TIER"; rc=$?
 echo "MUTANT $(basename "$PATCH") $PROP exit=$rc"
 git -C /repo worktree remove --force "$WT"
-rm -rf ".work/harness-$H" ".bin/vh-$H" ".work/evidence-$H"
+rm -rf ".work/harness-$H" ".work/evidence-$H"; rm -f .bin/*-"$H" .bin/*-"$H"-race
 exit $rc
